@@ -34,8 +34,17 @@ func parseFieldSeq(b []byte) (fields []ref.Field, ok bool) {
 		id := int16(uint16(b[i+1])<<8 | uint16(b[i+2]))
 		i += 3
 		r := ref.Walk(b[i:], ft)
-		if r.Class != ref.OK || r.MaxLevel > 60 {
+		if r.Class != ref.OK && !(r.Class == ref.DEPTH) {
 			return nil, false
+		}
+		if r.Class == ref.DEPTH {
+			// the skippers' nesting limit does not apply to the tree converter: parse deep values with the
+			// unbounded structural decoder, provided it consumes a well-formed value
+			n, ok := deepExtent(b[i:], ft, 0)
+			if !ok {
+				return nil, false
+			}
+			r.N = n
 		}
 		v, n := ref.Decode(b[i:], ft)
 		if n != r.N {
@@ -224,7 +233,11 @@ func checkUnknownFields(c UFCase, cv *cov) (v *evid.Violation) {
 	var flags struct{ contThenScalar, contOfStruct bool }
 	body := func() {
 		// bytes -> tree
-		tree, err := uf.ConvertUnknownFields(append([]byte(nil), data...))
+		input := append([]byte(nil), data...)
+		tree, err := uf.ConvertUnknownFields(input)
+		for i := range input {
+			input[i] = 0xEE // the tree must be a value of its own, independent of the buffer it was read from
+		}
 		if err != nil {
 			v = evid.Failf("ConvertUnknownFields failed on %d well-formed fields: %v; input %s", len(fields), err, hx(data))
 			return
@@ -297,12 +310,91 @@ func checkUnknownFields(c UFCase, cv *cov) (v *evid.Violation) {
 
 func init() { register("c13_unknown_fields", checkUnknownFields) }
 
+// deepExtent measures a well-formed value without any nesting limit (bounded only by the input length).
+func deepExtent(b []byte, t int8, depth int) (int, bool) {
+	if depth > 2000 {
+		return 0, false
+	}
+	if n := ref.FixedSize(t); n > 0 {
+		return n, len(b) >= n
+	}
+	switch t {
+	case ref.STRING:
+		if len(b) < 4 {
+			return 0, false
+		}
+		n := int(be32at(b, 0))
+		if n < 0 || n > len(b)-4 {
+			return 0, false
+		}
+		return 4 + n, true
+	case ref.STRUCT:
+		i := 0
+		for {
+			if i >= len(b) {
+				return 0, false
+			}
+			ft := int8(b[i])
+			i++
+			if ft == ref.STOP {
+				return i, true
+			}
+			if len(b) < i+2 {
+				return 0, false
+			}
+			i += 2
+			n, ok := deepExtent(b[i:], ft, depth+1)
+			if !ok {
+				return 0, false
+			}
+			i += n
+		}
+	case ref.MAP, ref.LIST, ref.SET:
+		hdr := 5
+		if t == ref.MAP {
+			hdr = 6
+		}
+		if len(b) < hdr {
+			return 0, false
+		}
+		sz := int(be32at(b, hdr-4))
+		if sz < 0 || sz > len(b) {
+			return 0, false
+		}
+		i := hdr
+		for j := 0; j < sz; j++ {
+			if t == ref.MAP {
+				n, ok := deepExtent(b[i:], int8(b[0]), depth+1)
+				if !ok {
+					return 0, false
+				}
+				i += n
+				n, ok = deepExtent(b[i:], int8(b[1]), depth+1)
+				if !ok {
+					return 0, false
+				}
+				i += n
+			} else {
+				n, ok := deepExtent(b[i:], int8(b[0]), depth+1)
+				if !ok {
+					return 0, false
+				}
+				i += n
+			}
+		}
+		return i, true
+	}
+	return 0, false
+}
+
 func genUFCase(t *rapid.T) UFCase {
 	n := rapid.IntRange(1, 6).Draw(t, "nfields")
 	var b []byte
 	for i := 0; i < n; i++ {
 		var v ref.Value
-		switch rapid.IntRange(0, 3).Draw(t, "shape") {
+		switch rapid.IntRange(0, 4).Draw(t, "shape") {
+		case 4: // nesting chains, also deeper than the skippers' limit of 64
+			v = genNest(t, rapid.SampledFrom([]int{1, 5, 30, 63, 64, 65, 66, 100, 200}).Draw(t, "depth"))
 		case 0: // a struct with several fields of mixed kinds
 			v = ref.Value{T: ref.STRUCT}
 			g := &vgen{t: t, nodes: 60, bytes: 3000, canonBool: true}
@@ -314,7 +406,7 @@ func genUFCase(t *rapid.T) UFCase {
 				v = ref.Value{T: ref.LIST, ET: ref.STRUCT, Elems: []ref.Value{v, {T: ref.STRUCT}}}
 			}
 		default:
-			v = genValue(t, 0, rapid.IntRange(0, 4).Draw(t, "depth"), true, false)
+			v = genValue(t, 0, rapid.IntRange(0, 4).Draw(t, "depth"), true, rapid.IntRange(0, 3).Draw(t, "bigStr") == 0)
 		}
 		id := (&vgen{t: t}).fieldID()
 		b = append(b, byte(v.T))
